@@ -4,6 +4,8 @@ import (
 	"crypto/tls"
 	"fmt"
 	"net"
+	"os"
+	"sync"
 	"syscall"
 	"time"
 )
@@ -131,3 +133,82 @@ func NewRefuser() (*Refuser, error) {
 }
 
 func (r *Refuser) Close() { syscall.Close(r.fd) }
+
+// SlowAccept is a loopback listener that is slow to accept: its accept queue (backlog 0) is full until
+// Release, so the SYN of a dial made before Release is dropped and retransmitted by the dialling
+// kernel (initial retransmission time-out: 1 s) - that dial completes about one second after it
+// began. Connections accepted after Release (other than the ones that filled the queue) are handed to
+// serve, each in its own goroutine.
+type SlowAccept struct {
+	Addr  string
+	l     net.Listener
+	fill  []net.Conn
+	serve func(net.Conn)
+	once  sync.Once
+	wg    sync.WaitGroup
+	mu    sync.Mutex
+	conns []net.Conn
+}
+
+func NewSlowAccept(serve func(net.Conn)) (*SlowAccept, error) {
+	b, err := NewBlackhole()
+	if err != nil {
+		return nil, err
+	}
+	f := os.NewFile(uintptr(b.fd), "slow-accept")
+	l, err := net.FileListener(f) // duplicates the descriptor: the listening socket keeps its backlog
+	f.Close()
+	if err != nil {
+		for _, c := range b.fill {
+			c.Close()
+		}
+		return nil, err
+	}
+	return &SlowAccept{Addr: b.Addr, l: l, fill: b.fill, serve: serve}, nil
+}
+
+// Release makes room in the accept queue and starts serving.
+func (s *SlowAccept) Release() {
+	s.once.Do(func() {
+		mine := map[string]bool{}
+		for _, c := range s.fill {
+			mine[c.LocalAddr().String()] = true
+		}
+		s.wg.Add(1)
+		go func() {
+			defer s.wg.Done()
+			for {
+				c, err := s.l.Accept()
+				if err != nil {
+					return
+				}
+				if mine[c.RemoteAddr().String()] {
+					c.Close()
+					continue
+				}
+				s.mu.Lock()
+				s.conns = append(s.conns, c)
+				s.mu.Unlock()
+				s.wg.Add(1)
+				go func() {
+					defer s.wg.Done()
+					defer c.Close()
+					s.serve(c)
+				}()
+			}
+		}()
+	})
+}
+
+func (s *SlowAccept) Close() {
+	s.l.Close()
+	for _, c := range s.fill {
+		c.Close()
+	}
+	s.mu.Lock()
+	for _, c := range s.conns {
+		c.Close()
+	}
+	s.mu.Unlock()
+	s.wg.Wait()
+}
